@@ -9,7 +9,10 @@ the previous one *and* all extra words can be played. Its `position` handler *is
 `Morlock.Model.UciPos.position` on the concrete engine model. Proved here, for every engine
 (`UciPos.Eng E`: `Reset` and `Move` as partial functions):
 
-* the recogniser (`continuation_*`);
+* the recogniser (`continuation_*`); its extra words are cut by `strings.Fields`, i.e. at every `unicode.IsSpace` rune
+  (`continuation_unicode_space`), while the new-position path cuts at single blanks — a *word* of a well-formed line
+  (`UciPos.Word`) is therefore free of all white space, and on lines that are not well-formed the two paths can
+  differ (`tab_paths_differ`, `double_space_paths_differ`);
 * `fresh_eq_denote`, `fallback_eq_denote`: the new-position path sets up the game the line describes;
 * `extend_eq_scratch`: a line extending the previous one has the effect of setting it up from scratch;
 * `state_eq_last`: after any sequence of `ucinewgame` / well-formed playable `position` commands the
@@ -28,7 +31,7 @@ theorem continuation_self (l : List Char) (h : Fen.trimSpace l ≠ []) : continu
     | nil => rfl
     | cons x xs ih => simp [List.isPrefixOf, ih]
   unfold continuation
-  simp [h, hp, fields, Fen.splitSpaces, Fen.splitSpaces.go]
+  simp [h, hp, fields, splitWs, splitWs.go]
 
 /-- An extension is only recognised at a word boundary: `… 0 1` does not extend to `… 0 10 moves e2e4`. -/
 theorem continuation_word_boundary :
@@ -51,6 +54,16 @@ theorem continuation_shorten :
     continuation "position startpos moves e2e4 e7e5".toList "position startpos moves e2e4".toList = none := by decide
 
 example : continuation "a b".toList "a b c".toList = some ["c".toList] := by decide
+
+/-- The extra words are cut at every Unicode white space, as `strings.Fields` does (`unicode.IsSpace`): a tab, a
+    no-break space U+00A0, an ideographic space U+3000, runs of them. (The audit's witness: the model used to
+    answer `["e7e5\tg1f3"]`.) -/
+theorem continuation_unicode_space :
+    continuation "position startpos moves e2e4".toList "position startpos moves e2e4 e7e5\tg1f3".toList
+      = some ["e7e5".toList, "g1f3".toList] ∧
+    continuation "position startpos moves e2e4".toList
+        ("position startpos moves e2e4 e7e5".toList ++ [Char.ofNat 0xa0] ++ "g1f3".toList ++ [Char.ofNat 0x3000, '\r', ' '] ++ "b8c6".toList)
+      = some ["e7e5".toList, "g1f3".toList, "b8c6".toList] := by decide
 
 
 /-! ## The handler -/
@@ -203,7 +216,7 @@ theorem malformed_then_wellformed_partial (eng : Eng E) (hS : eng.Strict) (e0 : 
 
 /-! ## A checker for well-formedness, tiny engines, instances and counterexamples -/
 
-def wordB (w : List Char) : Bool := w ≠ [] && !w.contains ' ' && w ≠ kwMoves
+def wordB (w : List Char) : Bool := w ≠ [] && w.all (fun c => !Fen.isSpace c) && w ≠ kwMoves
 
 def okB (c : Cmd) : Bool :=
   (match c.fen with
@@ -212,7 +225,7 @@ def okB (c : Cmd) : Bool :=
 
 theorem wordB_spec (w : List Char) (h : wordB w = true) : Word w ∧ w ≠ kwMoves := by
   simp [wordB] at h
-  exact ⟨⟨h.1.1, h.1.2⟩, h.2⟩
+  exact ⟨⟨h.1.1, fun c hc => h.1.2 c hc⟩, h.2⟩
 
 theorem ok_of_okB (c : Cmd) (h : okB c = true) : c.Ok := by
   unfold okB at h
@@ -227,10 +240,10 @@ theorem ok_of_okB (c : Cmd) (h : okB c = true) : c.Ok := by
 theorem wellFormed_of_check (line : List Char) (c : Cmd) (h : okB c = true) (hr : line = c.render)
     (ht : Fen.trimSpace line = line) : WellFormed line := ⟨c, ok_of_okB c h, hr, ht⟩
 
-/-- "No leading or trailing blanks" holds as soon as the last word of the line ends in a non-blank
-    (the line starts with `p`). -/
-theorem wellFormed_render (c : Cmd) (hok : c.Ok)
-    (hb : ∀ w ∈ c.words, ∀ ch ∈ w, Fen.isSpace ch = false) : WellFormed c.render := by
+/-- "No leading or trailing blanks" follows: the line starts with `p` and its last word ends in a character
+    that is not white space. So every rendered `Ok` command is a well-formed line. -/
+theorem wellFormed_render (c : Cmd) (hok : c.Ok) : WellFormed c.render := by
+  have hb : ∀ w ∈ c.words, ∀ ch ∈ w, Fen.isSpace ch = false := fun w hw => (words_word c hok w hw).2
   refine ⟨c, hok, rfl, ?_⟩
   have hwords : c.words = kwPosition :: (c.header ++ c.tail) := rfl
   rcases List.eq_nil_or_concat (c.header ++ c.tail) with h | ⟨ini, w, h⟩
@@ -373,6 +386,15 @@ theorem fen_field_moves_differs :
     position tiny (([], []), []) "position fen moves b c d e f".toList
       = (("moves b c d e f".toList, [['b'], ['c'], ['d'], ['e'], ['f']]), "position fen moves b c d e f".toList) ∧
     denote tiny "position fen moves b c d e f".toList = some ("moves b c d e f".toList, []) := by decide
+
+/-- Not covered by the theorems either (a tab is not a word separator of a well-formed line): the extension
+    path (`strings.Fields`) cuts at the tab and plays both moves, the new-position path (`strings.Split(_, " ")`)
+    sees the one move `e7e5\tg1f3` and rejects the line. The real driver does the same (`ucidet` stream,
+    family `malformed`). -/
+theorem tab_paths_differ :
+    position tinyStrict (["e2e4".toList], l1) "position startpos moves e2e4 e7e5\tg1f3".toList
+      = (["e2e4".toList, "e7e5".toList, "g1f3".toList], "position startpos moves e2e4 e7e5\tg1f3".toList) ∧
+    position tinyStrict ([], []) "position startpos moves e2e4 e7e5\tg1f3".toList = (["e2e4".toList], []) := by decide
 
 /-- Not covered by the theorems (the line is not well-formed): with two spaces between moves the
     extension path (`strings.Fields`) accepts the line, the new-position path (`strings.Split`) sees an
